@@ -11,7 +11,9 @@
 (*          5 compare-exchange done (w = result),                          *)
 (*          10 thread-local stack pointer set (o = the stack),             *)
 (*          11 thread exit detector (o = the thread's stack or none),      *)
-(*          12 nifty counter destructor, 13 list destroyed                 *)
+(*          12 nifty counter destructor, 13 list destroyed,                *)
+(*          14 clear(): the thread has emptied the stack it releases       *)
+(*             (its last access: the flag store follows)                   *)
 (*      o = 0 the list head, h >= 1 a stack node in the order the harness  *)
 (*          first saw it, -1 none                                          *)
 (* Between two hook points only one thread runs (the harness' scheduler    *)
@@ -39,7 +41,7 @@ Chk(c, p, r, i) == IF c THEN {} ELSE {V(p, r, i)}
 Result(s, v) == [s |-> s, v |-> v]
 
 TIds == -1..16
-NoThread == [pc |-> "idle", cur |-> 0, nx |-> 0, ts |-> 0]
+NoThread == [pc |-> "idle", cur |-> 0, nx |-> 0, ts |-> 0, emptied |-> FALSE]
 FreshState ==
   [first |-> 0,          \* model node at the head of the list (0 = empty)
    next |-> <<>>,        \* next[n]
@@ -118,7 +120,11 @@ OnAt(e) ==
             ELSE LET s1 == BindIn(st, e.o, me.ts)
                  IN Step([s1 EXCEPT !.inuse[me.ts] = FALSE,
                                     !.th[t].ts = IF me.pc = "idle" THEN 0 ELSE @,
-                                    !.th[t].pc = IF me.pc = "exiting" THEN "dead" ELSE @], {}, "clear")
+                                    !.th[t].emptied = FALSE,
+                                    !.th[t].pc = IF me.pc = "exiting" THEN "dead" ELSE @],
+                         \* marking the stack free is the releasing thread's LAST access to it: whoever takes the
+                         \* flag next owns the stack at once (design model: constant ReleaseLast)
+                         Chk(me.emptied, "C14", "ReleaseIsLastAccess", <<"marked free before it was emptied", t, me.ts>>), "clear")
   \* ---- exchange: destroy() -----------------------------------------------------------------
   ELSE IF e.k = 3 THEN
        IF e.o # 0 \/ me.pc # "nifty" THEN Lost(e, "exchange")
@@ -134,6 +140,10 @@ OnAt(e) ==
        ELSE IF (e.o = -1) # (me.ts = 0) \/ (e.o # -1 /\ Bound(e.o) # me.ts)
             THEN Result([st EXCEPT !.lost = TRUE], {V("C14", "ThreadPointerIsTheStackTaken", <<"at thread exit", t, e.o, Bound(e.o), me.ts>>)})
             ELSE Step([st EXCEPT !.th[t].pc = IF me.ts = 0 THEN "dead" ELSE "exiting"], {}, "exit")
+  ELSE IF e.k = 14 THEN
+       IF me.pc \in {"idle", "exiting"} /\ me.ts # 0 /\ (Bound(e.o) = me.ts \/ CanBind(e.o, me.ts))
+       THEN Result([BindIn(st, e.o, me.ts) EXCEPT !.th[t].emptied = TRUE], {})
+       ELSE Result(st, {V("C14", "ReleaseIsLastAccess", <<"worked on a stack it does not hold", t, e.o, Bound(e.o), me.ts, me.pc>>)})
   ELSE IF e.k = 12 THEN
        IF me.pc \in {"idle", "nifty"} THEN Result([st EXCEPT !.th[t].pc = "nifty"], {}) ELSE
        IF me.pc \in {"destroyed", "destroying"} THEN Result(st, {}) ELSE Lost(e, "nifty counter")
